@@ -14,7 +14,8 @@ EXPLANATION = (
     "INTEGER/LONG or Overflow; fraction literals yield SINGLE or (with #) DOUBLE; negating a "
     "literal is guarded at MIN_INTEGER / MIN_LONG, and (R5, interval dataflow) every integer literal "
     "built by arithmetic in the parser stays inside the range of its literal type. (R6) a unary operator is pushed down the whole left spine of the chain it precedes; (R7) the parser never narrows an f64 to f32, so a SINGLE literal is rounded once, from its text; (R8) the operand of a unary or keyword operator is parsed as a whole expression also when it starts with `(` (the parenthesis-only parser is used by the list of primaries only; shared with C09.R14)."
-    " (R9) a literal whose text spells a number beyond the range of its type is an error: the parser tests the parsed float with is_finite (shared with C06.R14); the Overflow exit of the decimal converter is accepted only on the not-finite side of that test.")
+    " (R9) a literal whose text spells a number beyond the range of its type is an error: the parser tests the parsed float with is_finite (shared with C06.R14); the Overflow exit of the decimal converter is accepted only on the not-finite side of that test."
+    " (R10) binary_expr is interpreted on every chain of three operators (one per precedence level, the right side built by the same function) and the tree compared with the one the ranks prescribe, modulo the associativity of AND / OR.")
 NOT_DECIDED = [
     "that the binary rotation groups chains of four or more operators correctly (the unary rotation is decided on two-level chains, C10.R6)",
     "the numeric thresholds and the exact value a literal denotes (value-level)",
